@@ -245,6 +245,9 @@ import numpy as np
 from maze_dataset import MazeDataset, MazeDatasetConfig
 from maze_dataset.generation.generators import GENERATORS_MAP
 req = json.load(sys.stdin)
+if req.get("start_method"):
+    import multiprocessing
+    multiprocessing.set_start_method(req["start_method"], force=True)
 cnt = Counter()
 for sd in req["seeds"]:
     cfg = MazeDatasetConfig(name="w", grid_n=req["n"], n_mazes=req["per_seed"], seed=sd, maze_ctor=GENERATORS_MAP["gen_wilson"], endpoint_kwargs=req["endpoint"])
@@ -257,19 +260,19 @@ print("RESULT" + json.dumps(cnt))
 """
 
 
-def sample_datasets(n: int, seeds, per_seed: int, procs: int, endpoint: dict) -> Counter:
+def sample_datasets(n: int, seeds, per_seed: int, procs: int, endpoint: dict, start_method=None) -> Counter:
     """mazes as datasets hand them out (serial, or generated by a pool of `procs` workers), in a fresh top-level interpreter"""
     import json
 
-    out = core.run_python(_DATASET_CODE.format(verif=core.VERIF_DIR), stdin=json.dumps({"n": n, "seeds": list(seeds), "per_seed": per_seed, "procs": procs, "endpoint": endpoint}), timeout=1500)
+    out = core.run_python(_DATASET_CODE.format(verif=core.VERIF_DIR), stdin=json.dumps({"n": n, "seeds": list(seeds), "per_seed": per_seed, "procs": procs, "endpoint": endpoint, "start_method": start_method}), timeout=1500)
     line = next(ln for ln in out.splitlines() if ln.startswith("RESULT"))
     return Counter(json.loads(line[len("RESULT"):]))
 
 
 def check_datasets(case: dict):
     """replay entry for the dataset route"""
-    cnt = sample_datasets(case["n"], case["seeds"], case["per_seed"], case["procs"], case["endpoint"])
-    evaluate(case["n"], case["n"], cnt, f"datasets procs={case['procs']} endpoint={case['endpoint']}")
+    cnt = sample_datasets(case["n"], case["seeds"], case["per_seed"], case["procs"], case["endpoint"], case.get("start_method"))
+    evaluate(case["n"], case["n"], cnt, f"datasets procs={case['procs']} endpoint={case['endpoint']} start_method={case.get('start_method')}")
     return {"nt": True, "labels": ["datasets"]}
 
 
@@ -278,13 +281,14 @@ def _run_datasets(total: int):
         import concurrent.futures
 
         stats, fails = Stats(), []
-        variants = [("serial", 0, {}), ("serial-deadends", 0, {"deadend_start": True, "deadend_end": True}), ("pool-of-4", 4, {}), ("pool-of-3-deadend-start", 3, {"deadend_start": True})]
+        variants = [("serial", 0, {}, None), ("serial-deadends", 0, {"deadend_start": True, "deadend_end": True}, None), ("pool-of-4", 4, {}, None),
+                    ("pool-of-3-deadend-start", 3, {"deadend_start": True}, None), ("pool-of-4-spawned-workers", 4, {}, "spawn")]
         cases = []
-        for k, (nm, procs, ep) in enumerate(variants):
-            seeds = [int(core.derive_seed(seed_val, "ds", nm, j) % (2**31)) for j in range(4)]
-            cases.append((nm, {"n": 3, "seeds": seeds, "per_seed": total // 4, "procs": procs, "endpoint": ep}))
+        for k, (nm, procs, ep, sm) in enumerate(variants):
+            seeds = [int(core.derive_seed(seed_val, "ds", nm, j) % (2**31)) for j in range(4 if sm is None else 2)]
+            cases.append((nm, {"n": 3, "seeds": seeds, "per_seed": total // len(seeds), "procs": procs, "endpoint": ep, "start_method": sm}))
         with concurrent.futures.ThreadPoolExecutor(max_workers=len(cases)) as ex:
-            results = list(ex.map(lambda c: sample_datasets(c[1]["n"], c[1]["seeds"], c[1]["per_seed"], c[1]["procs"], c[1]["endpoint"]), cases))
+            results = list(ex.map(lambda c: sample_datasets(c[1]["n"], c[1]["seeds"], c[1]["per_seed"], c[1]["procs"], c[1]["endpoint"], c[1].get("start_method")), cases))
         summaries = {}
         for (nm, case), cnt in zip(cases, results):
             try:
@@ -296,7 +300,7 @@ def _run_datasets(total: int):
             for t in cnt:
                 stats.nontrivial.add(core.digest(["ds", nm, t]))
             if len(stats.samples) < 3:
-                stats.samples.append({"variant": nm, **{k: case[k] for k in ("n", "per_seed", "procs", "endpoint")}, "seeds": case["seeds"][:2]})
+                stats.samples.append({"variant": nm, **{k: case[k] for k in ("n", "per_seed", "procs", "endpoint", "start_method")}, "seeds": case["seeds"][:2]})
         stats.extra["summaries"] = summaries
         return stats, fails
 
